@@ -439,6 +439,7 @@ def observe_array(a):
         'qtotal': np.asarray(a.qtotal).tolist(),
         'legs': [(type(l).__name__, int(l.qconj), np.asarray(l.slices).tolist(), np.asarray(l.charges).tolist()) for l in a.legs],
         'blocks': blocks,
+        'block_dtypes': sorted(set(str(b.dtype) for b in a._data)),
     }
 
 
@@ -448,6 +449,11 @@ def compare_observations(x, y, single=False):
     for key in ('shape', 'labels', 'qtotal', 'legs'):
         if x[key] != y[key]:
             return key, '%s: %r vs %r' % (key, x[key], y[key])
+    # the declared dtype may legitimately be derived differently (not judged), but within one configuration the stored blocks have
+    # the declared dtype, and the two configurations store the same kinds of numbers
+    for o in (x, y):
+        if o.get('block_dtypes') and o['block_dtypes'] != [o['dtype']]:
+            return 'block-dtype', 'declared dtype %s, stored blocks %r' % (o['dtype'], o['block_dtypes'])
     qx = [q for q, _ in x['blocks']]
     qy = [q for q, _ in y['blocks']]
     if qx != qy:
